@@ -59,7 +59,9 @@ def identify(identification: Identification) -> Expression:
 
     if district_without_treatment in graph.districts():
         parents = list(graph.topological_sort())
-        expression = Product.safe(p_parents(v, parents) for v in district_without_treatment)
+        expression = Product.safe(
+            _conditional(identification.estimand, v, parents) for v in district_without_treatment
+        )
         ranges = district_without_treatment - outcomes
         return Sum.safe(
             expression=expression,
@@ -243,7 +245,9 @@ def line_6(identification: Identification) -> Expression:
         raise ValueError("Line 6 precondition not met")
 
     parents = list(graph.topological_sort())
-    expression = Product.safe(p_parents(v, parents) for v in district_without_treatments)
+    expression = Product.safe(
+        _conditional(identification.estimand, v, parents) for v in district_without_treatments
+    )
     ranges = district_without_treatments - outcomes
     return Sum.safe(
         expression=expression,
@@ -292,11 +296,31 @@ def line_7(identification: Identification) -> Identification:
             return Identification.from_parts(
                 outcomes=outcomes,
                 treatments=treatments & district,
-                estimand=Product.safe(p_parents(v, parents) for v in district),
+                estimand=Product.safe(
+                    _conditional(identification.estimand, v, parents) for v in district
+                ),
                 graph=graph.subgraph(district),
             )
 
     raise ValueError("Could not identify suitable district")
+
+
+def _conditional(estimand: Expression, child: Variable, ordering: Sequence[Variable]) -> Expression:
+    """Get the conditional of the child given its predecessors in the distribution currently in hand.
+
+    :param estimand: The current distribution over the variables in the ordering
+    :param child: The child variable
+    :param ordering: A topologically ordered sequence of all variables of the current graph
+    :return: The observational conditional if the current distribution is (a marginal of) the
+        observational joint, otherwise the ratio of the two marginals of the current distribution
+    """
+    joint = estimand
+    while isinstance(joint, Sum):
+        joint = joint.expression
+    if isinstance(joint, Probability) and not joint.parents:
+        return p_parents(child, ordering)
+    index = ordering.index(child)
+    return Sum.safe(estimand, ordering[index + 1 :]) / Sum.safe(estimand, ordering[index:])
 
 
 def p_parents(child: Variable, ordering: Sequence[Variable]) -> Probability:
